@@ -353,6 +353,52 @@ theorem C15_deleteBy_removes_all_levels (T : Tree) (h : T.WF) (db : DB) (inv : N
     unfold deleteBy
     rw [deleteSel_spec, hs]
 
+/-! ### a destroy refused by a `cascade=False` reference leaves every level in place
+
+The parent level is destroyed first (`Extracted.destroyParentFirst`), so a reference that restricts
+the ROOT-level row refuses the whole destroy before any DELETE.  A restriction on a lower level
+refuses after the levels above it are gone: that is the open finding of property C06
+(`C06:inheritable-destroySelf-fails-after-parent-row-deleted`), kept visible here as the
+counter-theorem; the harness replays its witness as a note, not as a C15 alarm. -/
+
+/-- full statement, false of the code: `K1`'s row 1 is restricted; `K0`'s row is deleted, then `K1`
+    refuses: rows 1 of `K1` and `K3` are left without their root row -/
+theorem C15_refused_destroy_keeps_no_orphan_full_FALSE :
+    ¬ (∀ (T : Tree), T.WF → ∀ (db : DB), NoOrphan T db → ∀ (e i : Nat) (blocked : Nat → Bool),
+        NoOrphan T (destroyGuardedVia T db e i blocked).1) := by
+  intro hall
+  have inv := hall T0 T0_wf db0 (C15_no_orphan_inv T0 T0_wf _) 0 1 (fun a => a == 1)
+  have := inv.up 1 0 1 (by decide) (by decide)
+  obtain ⟨r, hr, _⟩ := this
+  have hn : ((destroyGuardedVia T0 db0 0 1 (fun a => a == 1)).1 0 1).isSome = false := by decide
+  rw [hr] at hn; cases hn
+
+/-- what holds: when the root-level row is the restricted one, through whichever level the
+    instance was fetched, the refused destroy changes nothing at any level -/
+theorem C15_refused_destroy_keeps_no_orphan_partial (T : Tree) (h : T.WF) (db : DB) (inv : NoOrphan T db)
+    (e i m : Nat) (blocked : Nat → Bool) (hget : get T db e i = .ok m)
+    (hroot : blocked (T.root e) = true) :
+    destroyGuardedVia T db e i blocked = (db, .integrity) := by
+  have hr : T.root e = T.root m := root_of_mem h m e (get_ok_inv h inv hget).2.1
+  simp only [destroyGuardedVia, hget]
+  exact destroyGuarded_root_blocked h db m i blocked (hr ▸ hroot)
+
+/-- and without a restriction on the chain the guarded destroy is the plain one -/
+theorem C15_unrestricted_destroy_is_plain (T : Tree) (db : DB) (e i m : Nat) (blocked : Nat → Bool)
+    (hget : get T db e i = .ok m) (hfree : ∀ a, a ∈ T.anc m → blocked a = false) :
+    (destroyGuardedVia T db e i blocked).2 = .ok ∧
+    ∀ c j, (destroyGuardedVia T db e i blocked).1 c j = (destroyVia T db e i).1 c j := by
+  simp only [destroyGuardedVia, destroyVia, hget]
+  exact destroyGuarded_unblocked T db m i blocked hfree
+
+/-! ### the same classes on several databases and inside transactions -/
+
+/-- operations sent through explicit connections (a second database, a transaction that is rolled
+    back or committed): the tables reached through every connection satisfy the invariant -/
+theorem C15_no_orphan_per_connection (T : Tree) (h : T.WF) (ops : List MOp) (k : Nat) :
+    NoOrphan T ((mrun T ops MState.init).cur k) :=
+  (mrun_preserves h ops MState.init (fun _ => ⟨noOrphan_empty T, noOrphan_empty T⟩) k).1
+
 /-! ### the statements above in every reachable state -/
 
 /-- **C15 over histories**: after any history over any class tree, through every entry level:
